@@ -47,3 +47,24 @@ void h_lock (void) { setup (VP_NONE, 0, 0); nsync_mu_lock (&the_mu); VP_CANARY (
 void h_rlock (void) { setup (VP_NONE, 0, 0); nsync_mu_rlock (&the_mu); VP_CANARY (); }
 void h_unlock (void) { setup (VP_WRITER, 0, 0); vp_g.release_ctx = 1; nsync_mu_unlock (&the_mu); VP_CANARY (); }
 void h_runlock (void) { setup (VP_READER, 0, 0); vp_g.release_ctx = 1; nsync_mu_runlock (&the_mu); VP_CANARY (); }
+
+void h_unlock_slow (void) {
+	lock_type *lt;
+	int hold = vp_nondet_bool () ? VP_WRITER : VP_READER;
+	setup (hold, 0, 0);
+	vp_g.release_ctx = vp_nondet_bool ();
+	vp_g.h4_check = 1;
+	the_mu.waiters = vp_nondet_bool () ? NULL : &vp_fw.nw.q;
+	lt = hold == VP_WRITER ? nsync_writer_type_ : nsync_reader_type_;
+	{
+		/* static (non-dfcc) instrumentation: pre/postcondition stated here with the contract's own macro text */
+		int queued0 = vp_g.queued, waited0 = vp_g.waited; unsigned p0 = vp_g.p_calls, v0 = vp_g.v_calls; int lso0 = vp_g.last_sem_outcome;
+		__CPROVER_assume (VP_PRE_UNLOCK_SLOW (&the_mu, lt) && !vp_g.released_with_desig && !vp_g.set_desig && !vp_wk.pending);
+		nsync_mu_unlock_slow_ (&the_mu, lt);
+		__CPROVER_assert (VP_POST_UNLOCK_SLOW_A (), "C01/C13: nsync_mu_unlock_slow_ returns with the lock and the spinlock released (and the mutex untouched afterwards)");
+		__CPROVER_assert (vp_g.queued == queued0 && vp_g.waited == waited0 && vp_g.p_calls == p0 && vp_g.last_sem_outcome == lso0, "VP-AUX: unlock_slow leaves the waiter-side ghost alone");
+		__CPROVER_assert (!vp_g.released_with_desig || vp_g.v_calls != v0, "C02: if the release leaves MU_DESIG_WAKER set by this thread, it has woken at least one waiter");
+		__CPROVER_assert (!vp_wk.pending && vp_wk.cleared == vp_wk.posted, "C02/C04: every waiter whose flag was cleared has been posted");
+	}
+	VP_CANARY ();
+}
